@@ -55,6 +55,29 @@ class NonLit:
     return hash(('nonlit', self.name))
 
 
+class EqAny:
+  """A caller-supplied value that compares equal to everything (like unittest.mock.ANY): the wrapper may only ever
+  ask whether a value *is* a marker, never whether it equals one."""
+
+  def __init__(self, tag):
+    self.tag = tag
+
+  def __eq__(self, other):
+    return True
+
+  def __ne__(self, other):
+    return False
+
+  def __hash__(self):
+    return 0
+
+  def __deepcopy__(self, memo):
+    return self
+
+  def __repr__(self):
+    return '<EqAny %r>' % (self.tag,)
+
+
 class HookError(Exception):
   """Raised by a probe finalize hook that is specified to fail."""
 
@@ -71,7 +94,8 @@ _NT = collections.namedtuple('_NT', ['a', 'b'])
 # Concrete Python values behind the specification's abstract literal ids.  They stress the text
 # level (quoting, escapes, line wrapping, numeric edge cases); all are literally representable.
 LIT_POOL = [
-    's', 7, -3, 2.5, -0.0, 1e300, 10**20, True, None,   # pairwise unequal (no 0 / False next to -0.0, no 1 next to True): they also serve as dict keys
+    's', 7, -3, 2.5, -0.0, 1e300, 10**20, True, None,   # pairwise unequal (no 0 / False next to -0.0, no 1 next to True): they also serve as dict
+                                                        # keys; their equal-but-differently-typed twins are made by _twin()
     b'by', 'with space', 'qu\'ote"s', 'line\nbreak', ' lead ',
     (1, 'a'), [1, [2, 'x']], {'k': (1,), 2: None}, '', 'x' * 90, 'back\\slash', 1e-7, -10**15,
     'long ' * 30, [('t', 1.5), {'n': [None, True]}], 'unicod\u00e9',
@@ -92,6 +116,31 @@ def _vkey(x):
   if type(x) in (set, frozenset):
     return (type(x).__name__, tuple(sorted(_vkey(i) for i in x)))
   return (type(x).__name__, repr(x))
+
+
+def _twin(x):
+  """A value equal to x but of a different type somewhere inside (None if there is none)."""
+  def tw(y):
+    if y is True:
+      return 1
+    if y is False:
+      return 0
+    if type(y) is int and y in (0, 1):
+      return bool(y)
+    if type(y) is int and abs(y) < 2**50:
+      return float(y)
+    if type(y) is float and y == int(y) and abs(y) < 2**50 and repr(y) != '-0.0':
+      return int(y)
+    if type(y) in (list, tuple):
+      return type(y)(tw(i) for i in y)
+    if type(y) is dict:
+      return {k: tw(v) for k, v in y.items()}
+    return y
+  try:
+    t = tw(x)
+    return t if _vkey(t) != _vkey(x) and t == x else None
+  except (TypeError, ValueError, OverflowError):
+    return None
 
 
 def _immutable(x):
@@ -189,6 +238,24 @@ class World:
       del config._INVERSE_REGISTRY[k]
     config._RENAMED_SELECTORS.clear()
 
+  # the specification's "left by an exception" is concretised by every kind of exception a `with` body can be left
+  # by: an ordinary error, the non-Exception BaseExceptions, and the GeneratorExit of a generator closed while
+  # suspended inside the block
+  EXIT_EXCEPTIONS = (KeyError, KeyboardInterrupt, SystemExit, GeneratorExit, ValueError, StopIteration)
+
+  def _leave(self, cm, by_exception):
+    if not by_exception:
+      cm.__exit__(None, None, None)
+      return None
+    cls = self.EXIT_EXCEPTIONS[(self.step + self.pool_seed) % len(self.EXIT_EXCEPTIONS)]
+    exc = cls('body failed')
+    try:
+      cm.__exit__(cls, exc, None)
+    except BaseException as e:  # pylint: disable=broad-except
+      if e is not exc and e.__cause__ is not exc and e.__context__ is not exc:
+        raise
+    return cls.__name__
+
   # -- probes ----------------------------------------------------------------
   def _signature_src(self, d, with_self):
     parts = (['self'] if with_self else [])
@@ -282,12 +349,20 @@ class World:
         return v[1]
       if v[1] not in self.lits:
         pool = self.lit_pool
-        if v[1].startswith('d_') or v[1] in ('1', '2'):   # '1' / '2' also serve as dict keys: hashable
+        keyish = v[1] in ('1', '2')                          # '1' / '2' also serve as dict keys: hashable, pairwise unequal
+        if v[1].startswith('d_') or keyish:
           # signature defaults are handed over by Python itself (the same object at every call): a consumer
           # mutating a mutable default is ordinary Python, not something Gin can prevent
           pool = [x for x in self.lit_pool if _immutable(x)]
         val = pool[-1] if pool else 'lit-' + v[1]
-        if pool:
+        # every other literal that is not a dict key is an equal-but-differently-typed twin of a value already in
+        # play (1 / True / 1.0, (0,) / (False,) ...): the specification's literals are distinct values, so nothing may
+        # ever treat "compares equal" as "is the same value"
+        twins = [t2 for t2 in (_twin(x) for x in self.lits.values()) if t2 is not None and _vkey(t2) not in self.lit_ids
+                 and (_immutable(t2) or not v[1].startswith('d_'))]
+        if twins and not keyish and self.rng.random() < 0.5:
+          val = twins[self.rng.randrange(len(twins))]
+        elif pool:
           self.lit_pool = [x for x in self.lit_pool if x is not val]
         self.lits[v[1]] = val
         self.lit_ids[_vkey(val)] = v[1]
@@ -302,10 +377,9 @@ class World:
       return self.nonlits[v[1]]
     if t == 'req':
       return self.gin.REQUIRED
-    if t == 'cp':
-      return ('cp', v[1])
-    if t == 'ck':
-      return ('ck', v[1])
+    if t in ('cp', 'ck'):
+      # every other caller value is an object that compares equal to anything
+      return EqAny((t, v[1])) if (self.step + self.pool_seed + len(str(v[1]))) % 2 else (t, v[1])
     if t == 'ref':
       text = '@' + '/'.join(list(v[2]) + [dotted(v[1])]) + ('()' if v[3] == 'call' else '')
       return self.config.parse_value(text)
@@ -324,6 +398,8 @@ class World:
     config = self.config
     if x is self.gin.REQUIRED:
       return ['req']
+    if isinstance(x, EqAny):
+      return [x.tag[0], x.tag[1]]
     if isinstance(x, Result):
       return ['res', x.sel.split('.'), x.scope, self.map_to_spec(x.delivered)]
     for name, obj in self.nonlits.items():
@@ -409,14 +485,7 @@ class World:
       except ValueError:
         res['status'] = 'ValueError'
     elif op == 'ExitScope':
-      cm = self.cms.pop()
-      if o['byException']:
-        try:
-          cm.__exit__(KeyError, KeyError('body failed'), None)
-        except KeyError:
-          pass
-      else:
-        cm.__exit__(None, None, None)
+      res['exc'] = self._leave(self.cms.pop(), o['byException'])
       res['status'] = 'ok'
     elif op == 'Call':
       res.update(self.call(dotted(o['sel']), o['pargs'], o['ckw']))
@@ -455,14 +524,7 @@ class World:
       self.unlock_cms.append(cm)
       res['status'] = 'ok'
     elif op == 'UnlockExit':
-      cm = self.unlock_cms.pop()
-      if o['byException']:
-        try:
-          cm.__exit__(KeyError, KeyError('body failed'), None)
-        except KeyError:
-          pass
-      else:
-        cm.__exit__(None, None, None)
+      res['exc'] = self._leave(self.unlock_cms.pop(), o['byException'])
       res['status'] = 'ok'
     elif op == 'Register':
       res['status'] = self.register(o['conf'])
